@@ -1,0 +1,15 @@
+//go:build !verif
+
+package verifhook
+
+// Workers returns the worker count a site uses: n, unchanged.
+func Workers(site, n int) int { return n }
+
+// Parallel returns the algorithm choice of a site: b, unchanged.
+func Parallel(site int, b bool) bool { return b }
+
+// Range is told the half-open index range handed to one worker. No-op.
+func Range(site, start, end int) {}
+
+// Yield marks a synchronisation point of the row pipeline. No-op.
+func Yield(point, y, x int) {}
